@@ -19,7 +19,7 @@ DEFAULT = dict(
     RogueHandshake=False, PartialFrames=False,
     Intervals=set(),
     Fire=False, Close=True, Erase=False, IdOps=False, Crash=False, Garbage=False, BadFrames=set(),
-    SendWhileDisc=False, PeerWhileDisc=False,
+    SendWhileDisc=False, PeerWhileDisc=False, LateFrames=False,
     # not TLC constants:
     invariants=[],
 )
@@ -54,9 +54,19 @@ SLICES = {
     # the application answers late: PUBREC / PUBCOMP handed to send() while the connection is down (refused, must change nothing)
     "in_qos2_disc": dict(Roles={"server", "client"}, Vers={"v50"}, AppKinds={"pubrec", "pubcomp"}, PeerKinds={"publish"}, QosSet={2}, InPids={1},
                          Rcs={0, 128}, MaxConns=2, Cleans={False}, SPs={True}, ConnSEIs={10}, MaxHeld=0, SendWhileDisc=True),
+    # the application sends DISCONNECT while a QoS 2 PUBLISH is already on the wire: it still arrives before the close
+    "in_qos2_late": dict(Roles={"client"}, Vers={"v311", "v50"}, AppKinds={"disconnect", "pubrec"}, PeerKinds={"publish", "pubrel"},
+                         QosSet={2}, InPids={1}, OptSets=[set(), {"auto_pub"}], MaxConns=2, Cleans={False}, SPs={True}, ConnSEIs={10},
+                         MaxHeld=0, LateFrames=True),
     "in_rm": dict(Roles={"client", "server"}, Vers={"v50"}, AppKinds={"puback", "pubrec", "pubcomp"}, PeerKinds={"publish", "pubrel"},
                   QosSet={1, 2}, InPids={1, 2}, Rcs={0, 128}, OptSets=[set(), {"auto_pub"}], MaxConns=1,
                   ConnRMs={NA, 1}, AckRMs={NA, 1}, MaxHeld=0),
+    # Receive Maximum next to the other reasons for refusing a packet: a PUBLISH refused for its alias after the quota check,
+    # an acknowledgement refused because it does not fit the peer's Maximum Packet Size (5-byte PUBACK/PUBREC, limit 4)
+    "rm_alias": dict(Vers={"v50"}, AppKinds={"publish"}, PeerKinds={"puback"}, QosSet={1}, Topics={"t1", ""}, Aliases={0, 1, 2},
+                     AckTAMs={NA, 1}, AckRMs={1, 2}, MaxHeld=1, MaxUsed=2),
+    "in_rm_mps": dict(Vers={"v50"}, AppKinds={"puback", "pubrec"}, PeerKinds={"publish"}, QosSet={1, 2}, InPids={1, 2}, Rcs={0, 128},
+                      ConnRMs={1}, AckMPSs={4}, MaxHeld=0),
     # topic aliases (C13)
     "alias_send": dict(Vers={"v50"}, AppKinds={"publish"}, PeerKinds={"puback"}, QosSet={0, 1}, Topics={"t1", "t2", ""},
                        Aliases={0, 1, 2}, AckTAMs={NA, 0, 1, 2}, AckRMs={NA, 1}, MaxConns=2, Cleans={True}, MaxHeld=1, MaxUsed=2),
@@ -65,6 +75,9 @@ SLICES = {
                        MaxConns=2, Cleans={False}, ConnSEIs={10}, SPs={True, False}, MaxHeld=1, MaxUsed=1),
     "alias_srv": dict(Roles={"server"}, Vers={"v50"}, AppKinds={"publish"}, PeerKinds={"publish"}, QosSet={0}, Topics={"t1", "t2", ""},
                       Aliases={0, 1, 2}, ConnTAMs={NA, 0, 1}, AckTAMs={NA, 0, 2}, OptSets=[set(), {"auto_map"}], MaxConns=2, MaxHeld=0),
+    # an alias (re)bound by a QoS 2 retransmission that is not delivered again still counts
+    "alias_dup": dict(Roles={"server"}, Vers={"v50"}, AppKinds=set(), PeerKinds={"publish"}, QosSet={0, 2}, InPids={1}, Topics={"t1", "t2", ""},
+                      Aliases={0, 1}, AckTAMs={1}, OptSets=[{"auto_pub"}], MaxConns=2, Cleans={False}, ConnSEIs={10}, MaxHeld=0),
     # Maximum Packet Size (C14)
     "mps": dict(Vers={"v50"}, AppKinds={"publish", "subscribe", "pingreq", "disconnect"}, PeerKinds={"publish", "puback", "suback"},
                 QosSet={0, 1}, Aliases={0, 1}, AckTAMs={NA, 1}, AckMPSs={NA, 2, 3, 10, 11, 13}, ConnMPSs={NA, 10, 11},
@@ -79,6 +92,10 @@ SLICES = {
     "timers_s": dict(Roles={"server"}, Vers={"v311", "v50"}, AppKinds={"pingresp", "publish", "disconnect"}, PeerKinds={"pingreq", "publish", "disconnect"},
                      QosSet={0}, KAs={0, 10}, SKAs={NA, 0, 5}, OptSets=[set(), {"auto_ping"}], Fire=True, MaxConns=2, MaxHeld=0,
                      ConnackRcs={0, 135}, AckMPSs={NA}, ConnMPSs={NA, 2}),
+    # a server re-arms its receive timer on EVERY packet it accepts: every inbound kind, also a QoS 2 duplicate
+    "timers_s_all": dict(Roles={"server"}, Vers={"v311", "v50"}, AppKinds={"pubrec", "pubcomp"},
+                         PeerKinds={"publish", "pubrel", "subscribe", "unsubscribe", "pingreq", "auth"}, QosSet={1, 2}, InPids={1},
+                         KAs={10}, OptSets=[set(), {"auto_pub"}], Fire=True, MaxConns=1, MaxHeld=0),
     # send gate matrix (C11)
     "gate": dict(Roles={"client", "server", "any"}, Vers={"v311", "v50", "undet"},
                  AppKinds={"publish", "puback", "pubrec", "pubrel", "pubcomp", "subscribe", "suback", "unsubscribe", "unsuback",
@@ -114,6 +131,9 @@ SLICES = {
     "reuse_c2": dict(Roles={"client", "any"}, Vers={"v311", "v50"}, AppKinds={"publish", "pingreq"},
                     PeerKinds={"publish", "puback", "pubrec"}, QosSet={1, 2}, KAs={0, 10}, ConnTAMs={NA, 1}, ConnRMs={NA, 1},
                     Cleans={False}, ConnSEIs={NA, 10}, SPs={False}, MaxConns=2, RespTimeouts={0, 3}, Fire=True, MaxUsed=1),
+    # session state across connections: persistent first session, then every way of starting the next one
+    "reuse_sess": dict(Roles={"client"}, Vers={"v311", "v50"}, AppKinds={"publish"}, PeerKinds={"puback", "publish"}, QosSet={1, 2},
+                       Cleans={False, True}, ConnSEIs={NA, 10}, SPs={False, True}, MaxConns=2, MaxUsed=1, InPids={1}),
     "reuse_s": dict(Roles={"server", "any"}, Vers={"v311", "v50"}, AppKinds={"publish", "disconnect"},
                     PeerKinds={"publish", "subscribe", "disconnect"}, QosSet={2}, Aliases={0, 1},
                     KAs={0, 10}, SKAs={NA, 5}, ConnRMs={NA, 1}, ConnTAMs={NA, 1}, ConnMPSs={NA, 13}, AckTAMs={NA, 1},
@@ -121,6 +141,9 @@ SLICES = {
     # export / crash / restore (C16)
     "crash_out": dict(Roles={"client"}, Vers={"v311", "v50"}, AppKinds={"publish", "pubrel"}, PeerKinds=ACKS, QosSet={1, 2}, MaxConns=2,
                       Cleans={False}, SPs={True}, ConnSEIs={10}, AckRMs={NA, 2}, Crash=True, Close=False),
+    # three exchanges in flight, acknowledged out of order, then the export / crash
+    "crash_order": dict(Roles={"client"}, Vers={"v311"}, AppKinds={"publish"}, PeerKinds={"puback"}, QosSet={1}, MaxConns=2,
+                        Cleans={False}, SPs={True}, MaxUsed=3, MaxHeld=1, Crash=True, Close=False),
     "crash_in": dict(Roles={"client", "server"}, Vers={"v311", "v50"}, AppKinds={"pubrec", "pubcomp"}, PeerKinds={"publish", "pubrel"},
                      QosSet={2}, InPids={1, 2}, MaxConns=2, Cleans={False}, SPs={True}, ConnSEIs={10}, Crash=True, Close=False, MaxHeld=0,
                      OptSets=[set(), {"auto_pub"}]),
